@@ -15,7 +15,8 @@ Inductive ustate :=
 | UArc (s : arc)
 | UWTiny (s : wtiny)
 | UTiny (s : tinylfu)
-| USampled (s : sampled).
+| USampled (s : sampled)
+| UPutRes.
 
 Definition uinit (kind : Z) (cfg : list Z) : option ustate :=
   match kind with
@@ -26,6 +27,7 @@ Definition uinit (kind : Z) (cfg : list Z) : option ustate :=
   | 4 => option_map UWTiny (winit cfg)
   | 5 => option_map UTiny (tinit cfg)
   | 6 => option_map USampled (saminit cfg)
+  | 7 => Some UPutRes
   | _ => None
   end.
 
@@ -40,6 +42,7 @@ Definition uretained (s : ustate) : nat :=
   | UWTiny s => wlen s
   | UTiny _ => 0%nat
   | USampled _ => 0%nat
+  | UPutRes => 0%nat
   end.
 
 Definition drop_out (n : nat) : list Z := [zn n; zn n; 0; 0; 0; 0].
@@ -48,6 +51,34 @@ Definition lift {A} (f : A -> ustate) (r : option (A * list Z * list Z)) : optio
   match r with
   | Some (s', o, cb) => Some (f s', o, cb)
   | None => None
+  end.
+
+(** PutResult itself: [130 ta xa ya za tb xb yb zb] compares two results; the answers are
+    [a == b; b == a; clone a == a; copy a == a; a == a; a != b] *)
+Definition dec_putres (t x y z : Z) : put_result :=
+  match t with
+  | 0 => PPut
+  | 1 => PUpdate x
+  | 2 => PEvicted x y
+  | _ => PEvictedAndUpdate x y z
+  end.
+
+Definition put_result_eqb (a b : put_result) : bool :=
+  match a, b with
+  | PPut, PPut => true
+  | PUpdate x, PUpdate y => Z.eqb x y
+  | PEvicted k1 v1, PEvicted k2 v2 => Z.eqb k1 k2 && Z.eqb v1 v2
+  | PEvictedAndUpdate k1 v1 o1, PEvictedAndUpdate k2 v2 o2 => Z.eqb k1 k2 && Z.eqb v1 v2 && Z.eqb o1 o2
+  | _, _ => false
+  end.
+
+Definition putres_step (op : list Z) : option (ustate * list Z * list Z) :=
+  match op with
+  | [130; ta; xa; ya; wa; tb; xb; yb; wb] =>
+    let a := dec_putres ta xa ya wa in
+    let b := dec_putres tb xb yb wb in
+    Some (UPutRes, [zb (put_result_eqb a b); zb (put_result_eqb b a); 1; 1; 1; zb (negb (put_result_eqb a b))], [0])
+  | _ => None
   end.
 
 Definition ustep (s : ustate) (op : list Z) : option (ustate * list Z * list Z) :=
@@ -63,6 +94,7 @@ Definition ustep (s : ustate) (op : list Z) : option (ustate * list Z * list Z) 
     | UWTiny s => lift UWTiny (wstep_enc s op)
     | UTiny s => lift UTiny (tstep_enc s op)
     | USampled s => lift USampled (samstep_enc s op)
+    | UPutRes => putres_step op
     end
   end.
 
@@ -76,4 +108,5 @@ Definition usnap (s : ustate) : list Z :=
   | UWTiny s => wsnap s
   | UTiny s => tsnap s
   | USampled s => samsnap s
+  | UPutRes => []
   end.
